@@ -141,16 +141,16 @@ def GenerateRxnNet(initial_reactant, reaction_rules):
                 # check for duplicate and append to unprocessed_list if missing
                 for mol1 in products:
                     inthelist = 0
-                    for mol2 in processed:
+                    for mol2 in processed + unprocessed:
                         # first check the nubmer of atoms and then
                         # look for substructure match
                         if mol1.GetNumAtoms() == mol2.GetNumAtoms() and \
                             mol1.GetNumAtoms() == len(mol1.GetSubstructMatch
                                                       (mol2)):
-                            # if it's in processed list, break
+                            # if it's already in either list, break
                             inthelist = 1
                             break
-                    # not in the processed list. append to unprocessed
+                    # not in either list. append to unprocessed
                     if inthelist == 0:
                         unprocessed.insert(0, mol1)
     # Prettify
